@@ -35,7 +35,7 @@ def run(j, tier):
     for k in v["rejected"]:
         e = ev[k - 1]
         j.fail("%s|%s%s|%s;len(%d,%d)|trace-rejected-%s" % (
-            PID, e["l"]["c"], e["op"], e["r"]["c"], e["l"]["n"], e["r"]["n"],
+            PID, e["l"]["c"], "__or__" if e["op"] == "|" else e["op"], e["r"]["c"], e["l"]["n"], e["r"]["n"],
             e["res"].get("cls") or e["res"]["k"]), {"kind": "trace-event", "event": e})
     pairs = {(e["op"], e["l"]["c"], e["r"]["c"]) for e in ev}
     j.sample({"trace-event": ev[len(ev) // 2]})
